@@ -357,6 +357,15 @@ impl<M: Hash + Clone + Eq, A: Ord + Hash + Clone> Orswot<M, A> {
         }
     }
 
+    /// Verification hook: a snapshot of the pending (deferred) removes.
+    #[cfg(crdts_verif)]
+    pub fn verif_deferred(&self) -> Vec<(VClock<A>, Vec<M>)> {
+        self.deferred
+            .iter()
+            .map(|(clock, members)| (clock.clone(), members.iter().cloned().collect()))
+            .collect()
+    }
+
     fn apply_deferred(&mut self) {
         let deferred = mem::take(&mut self.deferred);
         for (clock, entries) in deferred.into_iter() {
